@@ -72,6 +72,9 @@ CHECKS = {
  "C32": ("dbsim", "exploration", "deterministic simulation: views created inside seeded histories and kept while data changes; every outer query executed over the view, over the inlined derived table and over a CTE",
          "After every step each view is queried through seeded outer queries (projection, pushed-down filters, aggregates, GROUP BY, DISTINCT, join with a base table) in three renderings - FROM view, FROM (defining query) AS v, WITH w AS (defining query) - which must agree bit-exactly; equality after each later write is what 'a view reflects the current contents' means here.",
          "Sampling. Views expose two columns; definitions cover filtered projection, explicit column list, expression column, GROUP BY, two-table join, view over view, DISTINCT.", "6/C32"),
+ "C33": ("dbsim", "exploration", "deterministic simulation: seeded DDL/DML histories over a small pool of names in random identifier case; registry cross-checks, rebuild comparison and with/without-index probes after every step",
+         "Every step of a seeded history of CREATE/DROP TABLE, CREATE/DROP INDEX, ALTER TABLE (ADD/DROP/CHANGE COLUMN, RENAME TO, ADD/DROP CONSTRAINT) and DML is followed by: catalog listing = storage listing = objects implied by the accepted statements; declared = stored columns and row arity; every listed table answers SELECT *; both index registries name only existing tables and columns; every user index holds what the same CREATE INDEX builds from the current rows; constraint hash indexes equal their rebuild; retained columns keep their data across ALTER; index-driven probes equal the same probes with index scans switched off.",
+         "Sampling. Column rename only through CHANGE COLUMN (RENAME COLUMN is not in the grammar). Views/triggers as dependent objects of DDL are not part of this workload.", "6/C33"),
  "C34": ("dbsim", "exploration", "deterministic simulation: seeded trigger sets (incl. failing bodies as injected faults) and DML histories; executable model of expected firings",
          "Audit rows written by trigger bodies are compared, after every statement, with the firings the model derives from the rows the SUT's own SELECT reports as affected (once per row with OLD/NEW images, once per statement, WHEN and UPDATE OF gating); a trigger whose body fails must make the statement fail and leave target and audit tables unchanged.",
          "Sampling. Triggers are created through CreateTriggerStmt values (the SQL text path cannot store an executable body). WHEN conditions and UPDATE OF lists are restricted to the unambiguous cases listed in the evidence.", "6/C34"),
